@@ -526,8 +526,9 @@ func applyDamage(sp *txSpec, out string, m manifest.Manifest, d txDamage) string
 		// torn write: the second half of the chunk is zeroes / stale
 		tornChunks = append(tornChunks, [2]uint64{fileKeyForItem(it), uint64(hi)})
 		junk := make([]byte, n-n/2)
+		f.ReadAt(junk, off+n/2)
 		for i := range junk {
-			junk[i] = 0xEE
+			junk[i] ^= 0xFF // certainly different from what was there (a fixed filler can coincide with the data)
 		}
 		f.WriteAt(junk, off+n/2)
 		f.Close()
